@@ -71,15 +71,15 @@ def model_runs(ctx):
         if zero:
             raise MachineryError("vacuity: actions never taken in the exhaustive run: %s" % sorted(zero))
         # two clients: concurrent enqueue / join against start / stop
-        cfgb = write_cfg(ctx, "gen_TPb_%s.cfg" % tag, "Spec2", consts(2, "T2", "G1", "Ops2_42"), SAFETY, ["NoRunWhileStopped"])
+        cfgb = write_cfg(ctx, "gen_TPb_%s.cfg" % tag, "Spec2", consts(2, "T2", "G1", "Ops2_32"), SAFETY, ["NoRunWhileStopped"])
         ctx.model("MC_TP", cfgb, workers=16, timeout=3000, heap="12g")
         os.remove(os.path.join(common.SPEC, cfgb))
         # clear() on a pool in any state among the operations
-        cfgk = write_cfg(ctx, "gen_TPk_%s.cfg" % tag, "Spec2", consts(1, "T3", "G2", "Ops1_5", clear=True), SAFETY, ["NoRunWhileStopped"])
+        cfgk = write_cfg(ctx, "gen_TPk_%s.cfg" % tag, "Spec2", consts(1, "T2", "G1", "Ops1_6", clear=True), SAFETY, ["NoRunWhileStopped"])
         ctx.model("MC_TP", cfgk, workers=16, timeout=3000, heap="12g")
         os.remove(os.path.join(common.SPEC, cfgk))
         # pool sizes up to 3
-        cfgc = write_cfg(ctx, "gen_TPc_%s.cfg" % tag, "Spec3", consts(1, "T3", "G2", "Ops1_5", nw=5), SAFETY, ["NoRunWhileStopped"])
+        cfgc = write_cfg(ctx, "gen_TPc_%s.cfg" % tag, "Spec3", consts(1, "T2", "G1", "Ops1_5", nw=5), SAFETY, ["NoRunWhileStopped"])
         ctx.model("MC_TP", cfgc, workers=16, timeout=3000, heap="12g")
         os.remove(os.path.join(common.SPEC, cfgc))
         for prop, spec in (("Progress", "LiveSpec2"), ("StopReturns", "LiveSpecStop")):
